@@ -37,10 +37,10 @@ impl ByteCompiler<'_> {
                 //   Inc(dst, local); Move(local, dst) → 2 ops
                 //
                 // Post-increment (i++):
-                //   Move(dst, local); Inc(local, local) → 2 ops
+                //   Move(dst, local); Inc(local, dst) → 2 ops
                 //
-                // Inc(local, local) works because Inc writes new to dst AFTER old to src,
-                // so when dst==src the new value wins.
+                // Inc(local, local) (result unused) works because Inc writes new to dst AFTER
+                // old to src, so when dst==src the new value wins.
                 //
                 // Skip for const bindings — they must fall through to emit ThrowMutateImmutable.
                 if is_lexical
@@ -63,13 +63,15 @@ impl ByteCompiler<'_> {
                     }
 
                     if post {
-                        // Save old value to dst (post-increment returns old value).
+                        // Copy the old value to dst, then let Inc/Dec read it from there:
+                        // the instruction leaves ToNumeric(old) in its source (dst: the value of
+                        // the post-increment expression is the *converted* old value, `'5'++` is 5)
+                        // and writes the new value to the local.
                         compiler.bytecode.emit_move(dst.variable(), local_op);
-                        // Increment in-place.
                         if increment {
-                            compiler.bytecode.emit_inc(local_op, local_op);
+                            compiler.bytecode.emit_inc(local_op, dst.variable());
                         } else {
-                            compiler.bytecode.emit_dec(local_op, local_op);
+                            compiler.bytecode.emit_dec(local_op, dst.variable());
                         }
                     } else {
                         if increment {
